@@ -3,7 +3,9 @@
    end-to-end statement parse_master (render sty a) = Ok (sem a) is open (evidence). *)
 From hls Require Import Base Float Lex Kinds Types Tags Line Keys Media Master.
 From hls.Generated Require Import Tables.
-From hls.Proofs Require Import Build Parse Lexical MasterOrder Values.
+From hls.Proofs Require Import Build Parse Lexical MasterOrder Values AttrText TagText TagTextMedia TagTextVariant
+  TagTextSegment TagTextDateRange AttrTables.
+From Coq Require Import String.
 From Coq Require Import Lia.
 Open Scope N_scope.
 
@@ -64,6 +66,25 @@ Proof. intros. split; [apply resolution_roundtrip | apply channels_roundtrip]; a
 Check C02_resolution_channels : forall w h c, w < two64 -> h < two64 -> ch_number c < two64 ->
   parse_resolution (print_resolution (w, h)) = Ok (w, h) /\ parse_channels (print_channels c) = Ok c.
 Print Assumptions C02_resolution_channels.
+
+(* the model's writers emit exactly the attribute names the source's Display impls write, in the
+   same order (display table regenerated from the source; values with every optional attribute) *)
+Theorem C02_writer_attr_names :
+  map fst (xm_kvs full_media) = display_names_of "ExtXMedia"
+  /\ map fst (key_kvs full_key) = display_names_of "DecryptionKey"
+  /\ map fst (sd_kvs full_sd) = display_names_of "StreamData"
+  /\ lit "URI" :: map fst (si_extra (Some (FZero false)) (Some [97]) (Some [97]) (Some CcNone)) = display_names_of "VariantStream"
+  /\ map fst (start_kvs {| st_offset := FZero false; st_precise := true |}) = display_names_of "ExtXStart"
+  /\ map fst (dr_kvs full_daterange) = display_names_of "ExtXDateRange".
+Proof. destruct display_names_as_modelled as [H1 [_ [_ [H4 [H5 [H6 [H7 [_ H9]]]]]]]]. repeat split; assumption. Qed.
+Check C02_writer_attr_names :
+  map fst (xm_kvs full_media) = display_names_of "ExtXMedia"
+  /\ map fst (key_kvs full_key) = display_names_of "DecryptionKey"
+  /\ map fst (sd_kvs full_sd) = display_names_of "StreamData"
+  /\ lit "URI" :: map fst (si_extra (Some (FZero false)) (Some [97]) (Some [97]) (Some CcNone)) = display_names_of "VariantStream"
+  /\ map fst (start_kvs {| st_offset := FZero false; st_precise := true |}) = display_names_of "ExtXStart"
+  /\ map fst (dr_kvs full_daterange) = display_names_of "ExtXDateRange".
+Print Assumptions C02_writer_attr_names.
 
 Example C02_example :
   match parse_master (lit "#EXTM3U
